@@ -2796,6 +2796,18 @@ class Interp:
                     return Unk('%s axis' % last, e)
                 ax %= x.ndim
                 return Arr([d for k, d in enumerate(x.dims) if k != ax], alg.mk_fn(last, B(x.dims[ax], x.poly)), unit=num(1))
+            if last == 'lexsort' and len(args) == 1 and isinstance(args[0], (tuple, list)) and args[0] and not kw:
+                # sorted by the last key, ties by the one before, ...: an argsort of the last key (the order it gives to equal values is one of those argsort may give)
+                x = self._as_arr(args[0][-1])
+                if isinstance(x, Arr) and x.ndim == 1 and x.mask is None and all(isinstance(self._as_arr(k_), Arr) for k_ in args[0]):
+                    return Arr(x.dims, alg.array_fn('argsort', x.dims[0], x.poly), unit=num(1))
+                return Unk('lexsort', e)
+            if last in ('round', 'around', 'round_') and args:
+                x = self._as_arr(args[0])
+                nd_ = kw.get('decimals', args[1] if len(args) > 1 else 0)
+                if isinstance(x, Arr) and isinstance(nd_, int):
+                    return x.with_(poly=alg.mk_fn('round', P(x.poly), C(nd_)))          # not an order-preserving map: values that differ may round to the same number
+                return Unk('np.round', e)
             if last == 'argsort':
                 x = self._as_arr(args[0])
                 if isinstance(x, Arr) and x.ndim == 1 and x.mask is not None:
